@@ -356,11 +356,30 @@ def library(draw, lang=None, max_decls=8, with_python=None, with_lua=None, featu
             name = names.fresh("Templated")
             insts = draw(st.lists(st.sampled_from(["int", "double", "long", "float"]), min_size=1,
                                   max_size=2, unique=True))
-            lib["decls"].append(dict(kind="func", name=name, rtype="void", rattrs="", rrow="Rvoid", rT=None,
-                                     params=[P("arg", "ArgType arg", "", "N1", "ArgType")],
-                                     template="template<typename ArgType>", insts=insts,
-                                     py=True, lua=True, const=False, static=False,
-                                     options={}, format={}, extra={}))
+            # shapes: the tutorial's one (templated argument only), an ordinary argument next to the templated
+            # one, a templated result (templates.yaml ReturnType), a templated pointer result, two type
+            # parameters with the result named after the second (templates.yaml: template<T,U> FunctionTU)
+            shape = draw(st.sampled_from(["arg", "arg+plain", "result", "ptr-result", "two"]))
+            tf = dict(kind="func", name=name, rtype="void", rattrs="", rrow="Rvoid", rT=None,
+                      params=[P("arg", "ArgType arg", "", "N1", "ArgType")],
+                      template="template<typename ArgType>", insts=insts,
+                      py=True, lua=True, const=False, static=False, options={}, format={}, extra={}, tshape=shape)
+            if shape == "arg+plain":
+                tf["params"].append(P("slot", "int slot", "", "N1", "int"))
+                if draw(st.booleans()):
+                    tf["params"].insert(0, P("lead", "double lead", "", "N1", "double"))
+            elif shape == "result":
+                tf.update(rtype="ArgType", rrow="RN", rT="ArgType", params=[P("slot", "int slot", "", "N1", "int")])
+            elif shape == "ptr-result":
+                # a pointer result of an instantiation gets the same default treatment as any pointer result
+                tf.update(rtype="ArgType *", rrow="RP", rT="ArgType", params=[P("slot", "int slot", "", "N1", "int")],
+                          py=False, lua=False)
+            elif shape == "two":
+                pairs = draw(st.lists(st.sampled_from(["int, double", "double, int", "long, float", "float, double", "int, long"]),
+                                      min_size=1, max_size=2, unique=True))
+                tf.update(template="template<typename T, typename U>", insts=pairs, rtype="U", rrow="RN", rT="U",
+                          params=[P("arg1", "T arg1", "", "N1", "T"), P("arg2", "U arg2", "", "N1", "U")])
+            lib["decls"].append(tf)
         elif k == "generic":
             # fortran.rst / generic.yaml GenericReal
             name = names.fresh("Generic")
